@@ -52,8 +52,9 @@ func (idx *index) insert(ctx context.Context, p pointer, persist bool) error {
 		} else if !idx.beforeFirst(p.End) {
 			i, overlap := idx.unprotectedSearch(p.TimeRange)
 			if overlap {
+				existing := idx.mu.pointers[i].TimeRange
 				idx.mu.Unlock()
-				return span.Error(NewRangeWriteConflictError(p.TimeRange, idx.mu.pointers[i].TimeRange))
+				return span.Error(NewRangeWriteConflictError(p.TimeRange, existing))
 			}
 			insertAt = i + 1
 		}
@@ -70,12 +71,13 @@ func (idx *index) insert(ctx context.Context, p pointer, persist bool) error {
 	idx.totalSize.Add(int64(p.size))
 	idx.persistHead = min(idx.persistHead, insertAt)
 
-	idx.mu.Unlock()
 	if !persist {
+		idx.mu.Unlock()
 		return nil
 	}
 
 	persistPointers := idx.indexPersist.prepare(idx.persistHead)
+	idx.mu.Unlock()
 	return persistPointers()
 }
 
